@@ -194,9 +194,17 @@ class C17:
                 feat.add('scope-table-rehash')
             for _ in range(n_decl):
                 n = ch.choice(names)
-                r = ch.int(0, 9)
+                r = ch.int(0, 11)
                 counter[0] += 1
                 v = counter[0] * 7 % 1000 + 1
+                if r >= 10:
+                    # a parameter list declares the name: function prototype scope, nothing outlives the declarator
+                    if r == 10:
+                        lines.append('%svoid pf%d(enum { %s = %d } e);' % (ind, counter[0], n, v + 1))
+                    else:
+                        lines.append('%svoid pf%d(struct %s { char c[%d]; } *p, int %s);' % (ind, counter[0], n, 20 + v % 7, n))
+                    feat.add('prototype-scope')
+                    continue
                 if r < 5:
                     if n in var[-1]:
                         continue
@@ -231,6 +239,8 @@ class C17:
                 counter[0] += 1
                 v = counter[0] * 7 % 1000 + 1
                 lines.append('int %s = %d;' % (n, v)); var[0][n] = ('obj', v)
+                if ch.int(0, 2) == 0:
+                    lines.append('void pg%d(enum { %s = %d } e, struct %s { char c[77]; } *p);' % (counter[0], n, v + 3, n)); feat.add('prototype-scope')
         lines.append('int printf(const char *, ...);')
         lines.append('int main(void) {'); var.append({}); tag.append({})
         block(0, '  ')
@@ -263,7 +273,7 @@ class C17:
             for f in feat:
                 st.tag('scopes:' + f)
             st.tag('scopes')
-            st.case(core.shash(src) if (feat & {'shadowing', 'scope-table-rehash'}) else None, sample=({'scopes': src[:700]} if len([x for x in st.samples if 'scopes' in x]) < 1 else None))
+            st.case(core.shash(src) if (feat & {'shadowing', 'scope-table-rehash', 'prototype-scope'}) else None, sample=({'scopes': src[:700]} if len([x for x in st.samples if 'scopes' in x]) < 1 else None))
             if outs['chibicc'] != want:
                 raise core.Violation({'kind': 'scopes', 'source': src, 'expected': want, 'signature': core.shash(src)},
                                      'identifier lookup differs from the scope-stack model\nexpected %r\nobserved %r\n--- source ---\n%s' % (want[:400], outs['chibicc'][:400], src[:3000]))
